@@ -233,6 +233,9 @@ impl NameCompressor {
             }
             entry = &entry[..entry.len() - first.as_wire().len()];
 
+            // Every further label that matches is dropped from 'rest' too,
+            // so that the caller does not write it out a second time.
+            let mut rest = name_labels.remaining();
             for label in name_labels.clone() {
                 if entry.len() < label.as_wire().len()
                     || !entry[entry.len() - label.as_wire().len()..]
@@ -241,12 +244,12 @@ impl NameCompressor {
                     break;
                 }
                 entry = &entry[..entry.len() - label.as_wire().len()];
+                rest = &rest[label.as_wire().len()..];
             }
 
             // Suffixes from 'entry' that were also in 'name' have been
             // removed. The remainder of 'entry' does not match with 'name'.
             // 'name' can be compressed using this entry.
-            let rest = name_labels.remaining();
             let pos = pos + entry.len();
             return Some((i as u8, rest, pos as u16));
         }
